@@ -241,6 +241,12 @@ class ShimScalar:
     def __index__(self):
         return self.k
 
+    def __bool__(self):
+        return bool(self.k)
+
+    def __int__(self):
+        return int(self.k)
+
 
 class ShimVec:
     def __init__(self, v):
@@ -316,6 +322,55 @@ class FakeOp:
         if isinstance(i, ShimVec):
             return T.Tensor(ShimData(view_gather(x.value.view, list(i.v), axis)), self)
         raise Unsupported("gather index kind")
+
+    # scalar integer / boolean arithmetic an index computation may use (operands: scalar tensors or Python ints)
+    def _scalar(self, f, *args):
+        vals = [_unwrap(a) for a in args]
+        if any(isinstance(v, (ShimData, ShimVec, ShimMat)) for v in vals):
+            raise Unsupported("non-scalar operand of a scalar op")
+        return T.Tensor(ShimScalar(f(*vals)), self)
+
+    def Sub(self, a, b):
+        return self._scalar(lambda x, y: x - y, a, b)
+
+    def Mul(self, a, b):
+        return self._scalar(lambda x, y: x * y, a, b)
+
+    def Neg(self, a):
+        return self._scalar(lambda x: -x, a)
+
+    def Abs(self, a):
+        return self._scalar(lambda x: x if x >= 0 else -x, a)
+
+    def Less(self, a, b):
+        return self._scalar(lambda x, y: x < y, a, b)
+
+    def Greater(self, a, b):
+        return self._scalar(lambda x, y: x > y, a, b)
+
+    def LessOrEqual(self, a, b):
+        return self._scalar(lambda x, y: x <= y, a, b)
+
+    def GreaterOrEqual(self, a, b):
+        return self._scalar(lambda x, y: x >= y, a, b)
+
+    def Equal(self, a, b):
+        return self._scalar(lambda x, y: x == y, a, b)
+
+    def Not(self, a):
+        return self._scalar(lambda x: not x, a)
+
+    def Where(self, c, a, b):
+        return self._scalar(lambda k, x, y: x if k else y, c, a, b)
+
+    def __getattr__(self, name):
+        # an operator this view model does not interpret: the case is skipped (counted), the check does not crash
+        if name.startswith("__"):
+            raise AttributeError(name)
+
+        def unsupported(*a, **k):
+            raise Unsupported(f"operator {name} is not modelled by the view interpreter")
+        return unsupported
 
 
 def run_getitem(dims, comps):
